@@ -24,6 +24,9 @@ class _Park:
         yield self
 
 
+import asyncio as _asyncio  # noqa: E402
+
+
 class Cancelled(BaseException):
     pass
 
@@ -91,6 +94,10 @@ class Sched:
             return
         except Cancelled:
             t.done = True
+            return
+        except _asyncio.CancelledError as e:  # the coroutine ended with asyncio's own cancellation exception
+            t.done = True
+            t.result = e
             return
         except Exception as e:  # noqa: BLE001 - escaped the task: an observation
             t.done = True
